@@ -55,6 +55,10 @@ def filterE {α} (p : α → Except Err Bool) : List α → Except Err (List α)
     let r ← filterE p as
     pure (if b then a :: r else r)
 
+/-- with early transport disabled only jobs that are ready for pickup are offered -/
+def earlyFilter (inst : Instance) (cfg : SMConfig) (s : State) (l : List JobState) : Except Err (List JobState) :=
+  if cfg.allowEarly then pure l else filterE (fun j => readyForPickup inst s j) l
+
 /-- `get_possible_transport_transition` -/
 def possibleTransportTransitions (inst : Instance) (cfg : SMConfig) (s : State) :
     Except Err (List Transition) := do
@@ -63,8 +67,7 @@ def possibleTransportTransitions (inst : Instance) (cfg : SMConfig) (s : State) 
   let idle ← filterE (transportable inst s) (s.jobs.filter (!·.running))
   let assigned := s.transports.filterMap (·.job)
   let lonely := (running ++ idle).filter fun j => !assigned.contains j.id
-  let lonely ← if cfg.allowEarly then pure lonely
-               else filterE (fun j => readyForPickup inst s j) lonely
+  let lonely ← earlyFilter inst cfg s lonely
   pure (ts.flatMap fun t => lonely.map fun j =>
     ({ comp := .t t.id, new := .t .working, job := some j.id } : Transition))
 
